@@ -205,4 +205,18 @@ PROPS = {
                    "a directory manifest with flagged/directory entries (ctree). Pool sizes: see C13.",
         assumptions=["H collision-free on the strings involved"],
     ),
+    "C17": dict(
+        families=[dict(name="stagefile")],
+        level_text="Theorems C17_normalise, C17_roundtrip(_loaded) (record level, for any YAML codec that round-trips the "
+                   "written value), C17_def_ignores_checksums, C17_def_ignores_order, C17_def_checksum (the definition "
+                   "checksum changes exactly when command, working dir, or the sorted checksum-blanked artifact sets "
+                   "change), C17_def_injective_nf, with trim_space/clean idempotence, over the model of toFileFormat / "
+                   "FromFile / CalculateChecksum with the Go JSON encoder model. proof, partial: yaml.v2 is a parameter; "
+                   "the correspondence check hammers the round-trip hypothesis with ToFile -> FromFile -> ToFile -> "
+                   "FromFile on generated stages over YAML-hazard commands, working dirs and paths with every flag "
+                   "combination, and compares CalculateChecksum with the Coq def_checksum (BLAKE3 of the modelled JSON).",
+        level_note="Known finding D12: artifact path '<<' (yaml.v2 merge key) does not round-trip. Paths that Clean to "
+                   "the same key are not generated (Go map order would decide).",
+        assumptions=["yaml.v2 encode/decode round-trips the value written (sampled; false for the key '<<')"],
+    ),
 }
